@@ -26,7 +26,7 @@ ASSUMPTIONS = [
 ]
 NOT_REACHED = ["azimuth sets outside [0,180] for HvsrAzimuthal (refused by design)"]
 BUDGET = {"quick": dict(cases=1400, seconds=60, shards=4),
-          "thorough": dict(cases=40000, seconds=600, shards=16)}
+          "thorough": dict(cases=200000, seconds=600, shards=16)}
 REQUIRED = ["mon:rotation-matches-ground-truth", "mon:energy-preserved", "mon:vertical-untouched",
             "mon:orientation-recorded", "mon:composition-and-inverse", "mon:single-azimuth-equals-oriented-north",
             "mon:azimuth-180-periodic", "mon:azimuthal-is-stack-of-single-azimuths", "mon:rotdpp-monotone-and-bounded",
